@@ -564,6 +564,12 @@ class Sym:
     def __bool__(self):
         return ctx().branch(self.e != 0)
 
+    def __deepcopy__(self, memo):
+        return self
+
+    def __copy__(self):
+        return self
+
     def __index__(self):
         """a symbolic int used as an index / range bound: fork over its feasible values"""
         if not self.is_int:
